@@ -311,53 +311,4 @@ def P6(m, R):
         top = [n for n, p in tails if n in f.body]
         R.check(ok and bool(top), f, tails[0][0] if tails else f.node, 'the rest [%s:] is appended before returning' % cur,
                 'the remaining text [%s:] is not appended on every path to the return' % cur, construct=cons_base + ' tail')
-    # (2) _split / splitlines piece cursor
-    for name in ('_split', 'splitlines'):
-        f = m.fn('AnsiString.' + name)
-        cons = name + ' piece cursor'
-        fills = [n for n in f.walk() if isinstance(n, ast.Call) and call_name(n) == 'append' and n.args and isinstance(n.args[0], ast.Tuple)
-                 and len(n.args[0].elts) == 2]
-        if len(fills) != 1:
-            R.undecided(f, f.node, 'offset list fill not found', construct=cons)
-            continue
-        fill = fills[0]
-        lp = next((p for p in _parents(fill) if isinstance(p, ast.For)), None)
-        cur = norm(fill.args[0].elts[0])
-        piece = norm(lp.target)
-        problems = []
-        inits = [s for s in f.body if isinstance(s, ast.Assign) and norm(s.targets[0]) == cur]
-        if not inits or const_val(inits[0].value, None) != 0:
-            problems.append('offset cursor does not start at 0')
-        # advances after the fill, on the fall-through path: += len(piece) [+ len(sep) when sep given]
-        st = fill
-        while st not in lp.body:
-            st = st._parent
-        later = lp.body[lp.body.index(st) + 1:]
-        adv = []
-        for s in later:
-            if isinstance(s, ast.AugAssign) and norm(s.target) == cur and isinstance(s.op, ast.Add):
-                adv.append(('always', norm(s.value)))
-            elif isinstance(s, ast.If):
-                for x in s.body:
-                    if isinstance(x, ast.AugAssign) and norm(x.target) == cur and isinstance(x.op, ast.Add):
-                        adv.append((norm(s.test), norm(x.value)))
-        if ('always', 'len(%s)' % piece) not in adv:
-            problems.append('the cursor is not advanced by len(%s) after each piece (%s)' % (piece, adv))
-        if name == '_split':
-            sep = f.own_params()[0]
-            relocated = any(isinstance(s, ast.If) and any('find' in norm(x) for x in s.body) for s in lp.body) or \
-                any(isinstance(s, ast.Assign) and 'find' in norm(s.value) for s in lp.body)
-            sep_adv = [a for a in adv if a[1] == 'len(%s)' % sep]
-            if sep_adv:
-                c = sep_adv[0][0]
-                if c not in ('%s is not None' % sep, sep, 'always') and not c.startswith('%s is not None' % sep):
-                    problems.append('separator length added under %s' % c)
-            elif not relocated:
-                problems.append('the cursor never skips the separator')
-            extra = [a for a in adv if a[1] not in ('len(%s)' % piece, 'len(%s)' % sep)]
-        else:
-            extra = [a for a in adv if a[1] != 'len(%s)' % piece]
-        if extra:
-            problems.append('the cursor is also advanced by %s' % extra)
-        R.check(not problems, f, lp, 'offset cursor: 0, then += len(piece)%s per piece' % (' (+ len(sep))' if name == '_split' else ''),
-                '; '.join(problems), construct=cons)
+    # (the piece cursors of _split / splitlines are interpreted symbolically by rule P14)
